@@ -110,4 +110,83 @@ def Expressible (h : Header) (r : Record) : Prop :=
   ∀ a ∈ r.aux, AuxOK a
 instance (h : Header) (r : Record) : Decidable (Expressible h r) := by unfold Expressible; infer_instance
 
+
+/-! ### the float parameter's assumed laws, and field equality -/
+
+/-- a NaN bit pattern of a float32: exponent all ones, mantissa not zero -/
+def isNaN32 (b : UInt32) : Prop := (b >>> 23) &&& 255 = 255 ∧ b &&& 8388607 ≠ 0
+instance (b : UInt32) : Decidable (isNaN32 b) := by unfold isNaN32; infer_instance
+
+/-- equal as float values: the same bits, or both NaN (text does not carry NaN payloads) -/
+def floatEq (a b : UInt32) : Prop := a = b ∨ (isNaN32 a ∧ isNaN32 b)
+instance (a b : UInt32) : Decidable (floatEq a b) := by unfold floatEq; infer_instance
+
+/-- what is assumed of `fmt`'s `%v` and strconv.ParseFloat on float32 values (sampled by the harness on
+every generated float): parsing the printed text gives the value back (`canon b`: `b` itself, or the
+NaN ParseFloat returns when `b` is a NaN), which prints the same; the text contains no TAB, comma, LF, CR -/
+structure FloatLaws (ft : FloatText) where
+  canon : UInt32 → UInt32
+  parse_fmt : ∀ b, ft.parse (ft.fmt b) = some (canon b)
+  fmt_canon : ∀ b, ft.fmt (canon b) = ft.fmt b
+  canon_eq : ∀ b, floatEq b (canon b)
+  no_sep : ∀ b, ∀ c ∈ ft.fmt b, c ≠ 9 ∧ c ≠ 44 ∧ c ≠ 10 ∧ c ≠ 13
+
+/-- the smallest integer type NewAux picks for a value read from text -/
+def narrowTy (v : Int) : IntTy :=
+  if v < 0 then (if -128 ≤ v then .c else if -32768 ≤ v then .s else .i)
+  else (if v ≤ 255 then .C else if v ≤ 65535 then .S else .I)
+
+/-- the aux value ParseAux returns for the text of `v` -/
+def canonVal {ft : FloatText} (L : FloatLaws ft) : AuxVal → AuxVal
+  | .int _ v => .int (narrowTy v) v
+  | .float b => .float (L.canon b)
+  | .floats bs => .floats (bs.map L.canon)
+  | v => v
+
+def canonAux {ft : FloatText} (L : FloatLaws ft) (a : Aux) : Aux := ⟨a.t0, a.t1, canonVal L a.val⟩
+
+/-- the qualities UnmarshalSAM returns for the text of `r`'s: absent qualities come back as a run of
+0xff of the sequence's length (nil for an empty sequence) -/
+def canonQual (r : Record) : Option Bytes :=
+  let absent := if r.seq.length ≠ 0 then some (List.replicate r.seq.length 255) else none
+  match r.qual with
+  | none => absent
+  | some q => if q.any (· != 255) then some q else absent
+
+/-- the record UnmarshalSAM returns for the line of `r` -/
+def canonRecord {ft : FloatText} (L : FloatLaws ft) (r : Record) : Record :=
+  { r with qual := canonQual r, aux := r.aux.map (canonAux L) }
+
+/-- two lists of the same length whose elements are related pairwise -/
+def listRel {α β} (R : α → β → Prop) : List α → List β → Prop
+  | [], [] => True
+  | a :: as, b :: bs => R a b ∧ listRel R as bs
+  | _, _ => False
+
+def auxValEq : AuxVal → AuxVal → Prop
+  | .int _ v, .int _ w => v = w
+  | .float a, .float b => floatEq a b
+  | .floats as, .floats bs => listRel floatEq as bs
+  | .char a, .char b => a = b
+  | .text a, .text b => a = b
+  | .hex a, .hex b => a = b
+  | .ints ta as, .ints tb bs => ta = tb ∧ as = bs
+  | _, _ => False
+
+/-- equal aux fields: same tag; integers equal as integers (the type may be narrower); floats equal as
+floats; everything else identical -/
+def auxEq (a b : Aux) : Prop := a.t0 = b.t0 ∧ a.t1 = b.t1 ∧ auxValEq a.val b.val
+
+/-- qualities as a value per base: nil stands for "absent", which is 0xff for every base -/
+def qualView (r : Record) : Bytes :=
+  match r.qual with
+  | none => List.replicate r.seq.length 255
+  | some q => q
+
+/-- equal field values -/
+def fieldsEq (r r' : Record) : Prop :=
+  r.name = r'.name ∧ r.flags = r'.flags ∧ r.ref = r'.ref ∧ r.pos = r'.pos ∧ r.mapq = r'.mapq ∧
+  r.cigar = r'.cigar ∧ r.mateRef = r'.mateRef ∧ r.matePos = r'.matePos ∧ r.tempLen = r'.tempLen ∧
+  r.seq = r'.seq ∧ qualView r = qualView r' ∧ listRel auxEq r.aux r'.aux
+
 end Hts.Model.SamText
